@@ -1425,6 +1425,7 @@ func (in *Interp) selectOp(fr *frame, x *ssa.Select) Value {
 			v := in.fresh("select", 64)
 			in.inputs = append(in.inputs, Input{Tag: "select", Kind: "choice", Term: v, Internal: true})
 			in.res.NoNative = true
+			in.res.NoNativeHard = true
 			in.assume(c.Ult(v, c.BV(uint64(n), 64)))
 			k = in.Concretize(v, n-1, "select choice")
 		}
